@@ -77,6 +77,18 @@ def handlers : List (String × Handler) := [
         ("ps", ratsToJson [st.psRow, st.psCol]),
         ("sbs", match st.hint with | some h => ratToJson h | none => Json.null)]))
     | _, _ => throw "d of 3 vectors and s of 3 expected"),
+  ("storeAligned", fun j => do
+    let iop ← getRatList j "iop"
+    let ps ← getRatList j "ps"
+    match iop, ps with
+    | [a, b, c, d, e, f], [p, q] =>
+      let r := storeAligned ⟨a, b, c⟩ ⟨d, e, f⟩ p q (← getOptRat j "src_hint") (← getV3List j "all_pos") (← getNatList j "kept")
+      pure (exceptToJson (fun (st : Stack) => Json.mkObj [
+        ("pos", Json.arr ((sortV3 (dedup st.pos)).map v3ToJson).toArray),
+        ("iop", ratsToJson [st.rowCos.x, st.rowCos.y, st.rowCos.z, st.colCos.x, st.colCos.y, st.colCos.z]),
+        ("ps", ratsToJson [st.psRow, st.psCol]),
+        ("sbs", match st.hint with | some h => ratToJson h | none => Json.null)]) r)
+    | _, _ => throw "iop of 6 and ps of 2 expected"),
   ("getVolumeStack", fun j => do
     let st ← getStack j
     let r := getVolumeStack (← getKind j) st (← getInt j "rows") (← getInt j "cols") (← getBool j "allow_missing") (← getRequest j)
